@@ -8,7 +8,10 @@ number of files checked and the files it read are compared (1) with the model
 `CL.Sel.checkPaths` on a snapshot of the directory (oracles answered by the real pathspec /
 Pygments; measurements = what the real scan pipeline returns for the file), and (2) with the
 property text: checked = supported, not excluded, and - through a directory - not hidden; listed
-= scan's measurements of the file with length > 30, longest first, ties in scan order."""
+= scan's measurements of the file with length > 30, longest first, ties in scan order. A third of
+the trees contain symbolic links to files (inside the tree, into hidden / excluded folders, outside
+the root; two links to one target): for scan and for check a link is a file of its own, named by
+ITS path however it is reached (defect F26 was found this way; regression tree in FIXED)."""
 import json
 import os
 import sys
@@ -28,7 +31,7 @@ TRUSTED = [
 ASSUMPTIONS = [
     "the working directory is the codebase root; arguments have no `..` components",
     "directories passed to check have no hidden component of their own; absolute *file* paths are outside the property (Appendix A) - the model covers both, the direct oracle does not judge them",
-    "the tree is a snapshot of a real directory (unique non-empty names without '/', no directory symlinks) and does not change during the run",
+    "the tree is a snapshot of a real directory (unique non-empty names without '/', no directory symlinks; symbolic links to files are files of their own) and does not change during the run",
 ]
 
 
@@ -69,6 +72,15 @@ FIXED = [
                                           ["D", "gen", [["F", "g.py", LONG]]],
                                           ["D", "pkg", [["D", "gen", [["F", "h.py", LONG]]], ["D", "src", [["D", "gen", [["F", "i.py", LONG]]]]]]]]]]],
      "patterns": ["/out", "src/gen"], "sources": {"option": ["/out"], "config": [], "gitignore": ["src/gen"]}},
+    # regression for defect F26 (found by the symlink trees): `check <relative file>` tested the exclusions on the link's
+    # resolved target: src/link.py (target in the built-in-excluded tests/) was skipped although scan and `check src` analyse
+    # it; tests/link2.py (inside tests/, target elsewhere) and tests/out.py (target outside the root) were checked although
+    # scan skips them; gen/alias.py: two links to one target; a link and its target in one directory
+    {"tree": ["D", "root", [["D", "src", [["F", "impl.py", LONG], ["F", "big.js", LONGJS], ["L", "link.py", ["tests", "real.py"], LONG], ["L", "compat.py", ["src", "impl.py"], LONG]]],
+                            ["D", "tests", [["F", "real.py", LONG], ["L", "link2.py", ["src", "impl.py"], LONG], ["L", "out.py", ["..", "outside", "shared.py"], LONG]]],
+                            ["D", "gen", [["L", "alias.py", ["..", "outside", "shared.py"], LONG], ["L", "alias2.js", ["src", "big.js"], LONGJS], ["F", "keep.py", LONG]]],
+                            ["D", "lib", [["L", "shared.py", ["..", "outside", "shared.py"], LONG]]]]],
+     "patterns": ["gen/*", "lib/"], "sources": {"option": [], "config": [], "gitignore": ["gen/*", "lib/"]}},
 ]
 
 
@@ -132,6 +144,24 @@ def observe(case, only=None, rnd=None):
         meas_enc = "%d%s" % (len(meas), "".join(" %d %d%s" % (i, len(ms), "".join(
             " %s %d %d %d %d %d" % (sr.S(m[0]), m[1], m[2], m[3], m[4], m[5]) for m in ms)) for i, ms in sorted(meas.items())))
         tail = "%s %s %s %s" % (tree_enc, sr.enc_paths(excl), sr.enc_langs(snap), meas_enc)
+        links = sr.all_links(tree)
+        excl_set = {tuple(p) for p in excl}
+
+        def sens(way, sub=None, ex=excl_set):
+            """the way names a symbolic link by a relative path and the REAL exclusion list treats the link's own
+            path and its target differently (counted only; such calls are compared and judged like all others)"""
+            for kind, comps in way:
+                full = tuple(([sub] if sub else []) + list(comps))
+                t = links.get(full) if kind == 0 else None
+                if t is None:
+                    continue
+                if sub is None:
+                    tex = t[0] != ".." and tuple(t) in ex
+                else:
+                    tex = t[0] == sub and tuple(t[1:]) in ex
+                if (tuple(comps) in ex) != tex:
+                    return True
+            return False
         for way in (only if only is not None else ways(snap, rnd)):
             args = [("/".join(comps) if comps else ".") if kind in (0, 2) else os.path.join(T.root, *comps)
                     for kind, comps in way]
@@ -139,7 +169,7 @@ def observe(case, only=None, rnd=None):
             real["read"] = [canon(p, T.root) for p in real["read"]]
             real["listed"] = [[canon(l[0], T.root)] + list(l[1:]) for l in real["listed"]]
             line = "checksel 0 %d %s %s" % (len(way), " ".join("%d %s" % (kind, sr.enc_path(comps)) for kind, comps in way), tail)
-            runs.append((way, real, line))
+            runs.append((way, real, line, [], sens(way)))
         # outside the property (model comparison only): the working directory BELOW the root, so
         # that some arguments lie outside it (`relative_to` raises ValueError, no exclusion test)
         subs = [c[1] for c in snap[2] if c[0] == "D" and not c[1].startswith(".")]
@@ -166,7 +196,7 @@ def observe(case, only=None, rnd=None):
                 real["listed"] = [[canon(l[0], T.root, [sub])] + list(l[1:]) for l in real["listed"]]
                 line = "checksel %s %d %s %s" % (sr.enc_path([sub]), len(way),
                                                  " ".join("%d %s" % (kind, sr.enc_path(comps)) for kind, comps in way), tail2)
-                runs.append(([[kind + 10, comps] for kind, comps in way], real, line, [sub]))
+                runs.append(([[kind + 10, comps] for kind, comps in way], real, line, [sub], sens(way, sub, {tuple(p) for p in excl2})))
     return runs, table, scan_err
 
 
@@ -204,6 +234,23 @@ def parse_model(reply, cwd=()):
         comps, i = sr.read_path(ws, i)
         out["read"].append("/".join(comps if is_abs else list(cwd) + comps))
     return out
+
+
+def link_status_differs(case, way):
+    """the way names, by a relative path, a symbolic link whose own path and whose target differ in exclusion status
+    (a link into an excluded folder, a link inside an excluded folder to a file elsewhere or outside the root).
+    Such calls are JUDGED like all others - a link is a file of its own, named by ITS path (defect F26: `check` used to
+    test the exclusions on the resolved target); the function only counts how many of them a run contains."""
+    links = sr.all_links(sr.tree_from_json(case["tree"]))
+    for kind, comps in way:
+        t = links.get(tuple(comps)) if kind == 0 else None
+        if t is None:
+            continue
+        own = sr.spec_excluded(list(comps), case["patterns"])
+        target = False if t[0] == ".." else sr.spec_excluded(list(t), case["patterns"])
+        if own != target:
+            return True
+    return False
 
 
 def expected(case, way, table):
@@ -273,14 +320,18 @@ def run_cases(cases, rnd):
     for c in cases:
         runs, table, scan_err = observe(c, None, rnd)
         if scan_err:
-            fails.append({"input": dict(c, way=None), "observed": scan_err, "required": ["scan completes"]})
+            fails.append({"input": dict({k: v for k, v in c.items() if not k.startswith("_")}, way=None), "observed": scan_err, "required": ["scan completes"]})
+        nl = len(sr.all_links(sr.tree_from_json(c["tree"])))
+        stats["trees_with_symlinks"] = stats.get("trees_with_symlinks", 0) + (1 if nl else 0)
+        stats["symlinks"] = stats.get("symlinks", 0) + nl
         replies = common.run_driver([run[2] for run in runs])
         for run, reply in zip(runs, replies):
             way, real = run[0], run[1]
-            model = parse_model(reply, run[3] if len(run) > 3 else ())
+            model = parse_model(reply, run[3])
             r = {"error": real["error"], "listed": real["listed"], "files_checked": real["files_checked"], "read": real["read"]}
             m = {"error": model.get("error"), "listed": model.get("listed"), "files_checked": model.get("files_checked"), "read": model.get("read")}
-            inp = dict(c, way=way)
+            inp = dict({k: v for k, v in c.items() if not k.startswith("_")}, way=way)
+            stats["symlink_named_status_differs"] = stats.get("symlink_named_status_differs", 0) + (1 if run[4] else 0)
             if r != m:
                 dis.append({"stream": "check_command", "input": inp, "model": m, "impl": r})
             bad = oracle(c, way, real, table)
@@ -315,9 +366,9 @@ def correspond(ctx):
                       "working directory below the root (model only)": stats["kinds"]["cwd_below_root"]}
     return {
         "evaluations": stats["runs"], "distinct_nontrivial": len(nontrivial),
-        "rule": "%d random trees + %d fixed (generator of C11; functions of 3..75 lines incl. 30/31/60/61; Latin-1, malformed and empty files) x patterns of the 6 gitignore classes via option/.codelimit.yml/.gitignore; per tree: check on every file by relative path (and by absolute path, model comparison only), on every directory (root `.` and all sub-directories; hidden directories for the model comparison only) relatively and absolutely, one call with 2-3 arguments (model only), and ~6 calls from a working directory below the root incl. arguments outside it (model only); non-trivial = distinct (tree, patterns, way) with at least one listed function" % (n, len(FIXED)),
+        "rule": "%d random trees + %d fixed (generator of C11; functions of 3..75 lines incl. 30/31/60/61; Latin-1, malformed and empty files; a third of the trees with 1-3 symbolic links to files inside the tree - also in hidden / excluded folders - or outside it: a link is a file of its own for scan and for check, named by ITS path - also when it is reached by a relative file path and its target lies in an excluded folder or outside the root (defect F26, fixed; regression tree in FIXED)) x patterns of the 6 gitignore classes via option/.codelimit.yml/.gitignore; per tree: check on every file by relative path (and by absolute path, model comparison only), on every directory (root `.` and all sub-directories; hidden directories for the model comparison only) relatively and absolutely, one call with 2-3 arguments (model only), and ~6 calls from a working directory below the root incl. arguments outside it (model only); non-trivial = distinct (tree, patterns, way) with at least one listed function" % (n, len(FIXED)),
         "samples": [], "exhaustive": False, "distribution": stats,
-        "disagreements": dis[:50], "oracle_failures": fails[:50],
+        "disagreements": dis[:50], "oracle_failures": sorted(fails, key=lambda f: len(json.dumps(f["input"], default=str)))[:50],
     }
 
 
@@ -335,7 +386,7 @@ def search(ctx, hints):
             way, real = run[0], run[1]
             bad = oracle(c, way, real, table)
             if bad:
-                fails.append({"input": dict(c, way=way),
+                fails.append({"input": dict({k: v for k, v in c.items() if not k.startswith("_")}, way=way),
                               "observed": {"listed": real["listed"][:6], "read": real["read"][:8],
                                            "files_checked": real["files_checked"], "code": real["code"], "error": real["error"]},
                               "required": bad})
